@@ -169,7 +169,11 @@ FS_ASSUMPTIONS = [
     'participants is NOT modelled in the stubs; what carries over to concurrent runs are the protocol preconditions on private files (see DESIGN section 5)',
     'any filesystem call may fail: an error is either explained by the state (ENOENT/ESTALE on an absent path, EEXIST on link) or counted as a hard fault',
     'environment well-formedness (World.env_ok): timestamp granularity between 1 ns and 2 s, monotone clock, no entry dated in the future, '
-    'stored mtimes representable at the granularity, no path is both a file and a directory, no directory is named like a key',
+    'stored mtimes representable at the granularity, no path is both a file and a directory, no directory is named like a key, '
+    'configured cache directories do not nest inside one another\'s key namespace',
+    'that each stand-in re-establishes the invariant is NOT assumed: unit u0_stubs proves, for every stand-in that takes the ghost World, the lemma '
+    '"protocol precondition + stated effect ==> World.inv()" generated mechanically from the stand-in\'s own contract text (tools/stubjust.py); '
+    'what remains assumed is the stated effect itself',
     'PathBuf::push(name) appends exactly one component only when `name` is a single normal component; otherwise nothing is known about the result',
     'a directory listing returns each existing child at most once, only existing children, and all of them when no item fails; fewer than 2^64 items',
     'the thread-local trigger countdown is the ghost field World.counter; the random source is unconstrained',
@@ -180,7 +184,7 @@ U4_NOTE = ('Trusted: Verus/Z3; the POSIX/std/filetime stand-ins in contracts/pre
            'sequential (solo) filesystem model; extraction transformations T1-T9 checked by token-level erasure on every run. ')
 
 
-def _u4(pid, text, replayer=None, thorough=None, not_covered=(), units=('u6_stack',), extra_assume=()):
+def _u4(pid, text, replayer=None, thorough=None, not_covered=(), units=('u0_stubs', 'u6_stack'), extra_assume=()):
     PROPS[pid] = {
         'units': list(units),
         'replayer': replayer,
@@ -280,13 +284,13 @@ _u4('C03', 'Proof that rename/link require `must_sync ==> synced` and `!writable
     'documented panic on failure), set_temp_file / put_temp_file / get_or_update miss and replace through Cache::finalize_tempfile, promotion through finalize_tempfile(tmp, auto_sync) '
     'after the copy; a failed flush returns Err before any publication; nothing clears the synced flag except writing, and only invisible files are ever written.',
     not_covered=['the two-line shims Cache::{set, put, set_temp_file, put_temp_file} that forward to the `doit` functions under contract are generic and dropped'])
-PROPS['C10']['units'] = ['u2_trigger', 'u6_stack']
+PROPS['C10']['units'] = ['u2_trigger', 'u0_stubs', 'u6_stack']
 PROPS['C10']['assumptions'] += FS_ASSUMPTIONS
 PROPS['C10']['not_covered'] = []
 PROPS['C10']['level_text'] += (' In the filesystem unit: plain::Cache::new builds the trigger with period capacity/3; CacheDir::maybe_cleanup is exactly one trigger event and runs the whole '
                                 'maintenance iff it fires, with no filesystem call otherwise; set/put call it before their first publishing step (cleanup_frame keeps `published` unchanged).')
 PROPS['C08']['units'] = ['u1_planner']
-PROPS['C12']['units'] = ['u3_hash', 'u6_stack']
+PROPS['C12']['units'] = ['u3_hash', 'u0_stubs', 'u6_stack']
 PROPS['C12']['assumptions'] += FS_ASSUMPTIONS
 PROPS['C12']['not_covered'] = []
 PROPS['C12']['level_text'] += (' Filesystem level (unit U5): sharded::Cache::new clamps n < 2 to 2; shard(i) is child(root, fmt_shard(i)); get/touch probe the primary candidate first and the '
